@@ -917,6 +917,11 @@ impl SortedWritesTable {
                                         unsafe {
                                             let _was_stale = read_handle.set_stale_shared(occ.get().row);
                                             debug_assert!(!_was_stale);
+                                            // The row that replaces `cur` is the output of the merge
+                                            // function, which need not equal the incoming row (e.g.
+                                            // `set-union`). `cur_row` currently holds the incoming row
+                                            // and is exclusively ours: overwrite it with the merged one.
+                                            read_handle.overwrite_row_shared(cur_row, &scratch);
                                         }
                                         occ.get_mut().row = cur_row;
                                         changed = true;
